@@ -313,6 +313,12 @@ def evaluate(ck, fl, mt):
     arg0 = deref_local(fl, mc["args"][0])
     a0 = [x for x in walk(arg0) if is_call(x, LM + "::category") and obj_is_param(x, fl, 0)]
     a1 = skip_copies(deref_local(fl, mc["args"][1]))
+    # the category text is decoded as UTF-8 (what QString(const char *) does, and what the rule text was): another decoding compares other characters
+    other_decoding = [x for x in walk(arg0) if (x.get("k") == "call" and strip_tmpl(x.get("callee") or "").split("::")[-1] in ("fromLatin1", "fromLocal8Bit", "fromAscii", "fromRawData", "fromUcs4", "fromUtf16"))
+                      or (x.get("k") == "construct" and (x.get("class") or "") in ("QLatin1String", "QLatin1StringView"))]
+    if other_decoding:
+        ck.ob("C15-O3", sitestr(fl, other_decoding[0]), False, "the category is decoded with %s before it is matched: a category name outside ASCII no longer equals a rule that spells it (the rule text, like "
+              "QString(const char *), is UTF-8)" % describe(other_decoding[0])[:60], key="filter|category-decoding")
     okargs = bool(a0) and is_call(a1, LM + "::type") and obj_is_param(a1, fl, 0) and not lossy_wrappers(arg0)
     unknown_args = not okargs and not lossy_wrappers(arg0) and any(skip_copies(a_).get("k") == "ref" and skip_copies(a_).get("dk") == "local" for a_ in mc["args"][:2])
     ck.ob("C15-O3", sitestr(fl, mc), True if okargs else (None if unknown_args else False), "matches(lmsg.category(), lmsg.type())" if okargs else "matches(%s)" % ", ".join(describe(a) for a in mc["args"]), key="filter|matches-args")
